@@ -23,7 +23,7 @@ Arguments Panic {A} site.
 
 Definition bind {A B} (r : res A) (f : A -> res B) : res B :=
   match r with Ok a => f a | Err e => Err e | Panic s => Panic s end.
-Notation "x <- r ;; k" := (bind r (fun x => k)) (at level 61, r at next level, right associativity).
+Notation "x <- r ;; k" := (bind r (fun x => k)) (at level 62, r at next level, right associativity).
 
 Definition is_ok {A} (r : res A) : bool := match r with Ok _ => true | _ => false end.
 Definition is_err {A} (r : res A) : bool := match r with Err _ => true | _ => false end.
